@@ -51,7 +51,7 @@ def make_case(srcs, langs=(0,)):
         v = []
         outs = {}
         if is_text:
-            for fam, nm in ((0, "mmd_string_convert"), (1, "mmd_d_string_convert"), (2, "mmd_engine_convert")):
+            for fam, nm in ((0, "mmd_string_convert"), (1, "mmd_d_string_convert"), (2, "mmd_engine_convert"), (3, "mmd_engine_convert (second call on one engine)"), (4, "mmd_engine_convert (after convert_to_data and a metadata query on the engine)")):
                 mmd.rng_fresh(); outs[nm] = mmd.convert(doc, ext, fmt, lang, fam)
         for fam, nm in ((0, "mmd_string_convert_to_data"), (1, "mmd_d_string_convert_to_data"), (2, "mmd_engine_convert_to_data")):
             mmd.rng_fresh(); outs[nm] = mmd.convert_to_data(doc, ext, fmt, lang, ASSETS.encode(), fam)
@@ -138,7 +138,7 @@ def cli_leg(rep, tier):
 def run(tier):
     rep = core.Report("C06", tier, "exploration")
     rep.rule = ("grid: sources (every line fragment alone and in ordered pairs, macro fragments, inline fragment pairs, the block set, the repository's own test documents) x all 13 formats x 6 extension sets x "
-                "{mmd_string_, mmd_d_string_, mmd_engine_} x {convert, convert_to_data, convert_to_file}; the process-global generator is put back into its fresh state before every variant so that entry points, not history, are judged; "
+                "{mmd_string_, mmd_d_string_, mmd_engine_} x {convert, convert_to_data, convert_to_file} plus mmd_engine_convert asked a second time / after other calls on the same engine; the process-global generator is put back into its fresh state before every variant so that entry points, not history, are judged; "
                 "text formats: byte equality; packaged formats: member-by-member equality after normalising uuids/dates; every to_file variant must leave a non-empty file; metadata functions across the three families; CLI legs on a sub-grid")
     rep.assumptions = ["sources for the CLI legs carry no transclusion markers nor mmd header/footer keys"]
     mmd.so_path(); dl = core.deadline_s(tier)
